@@ -167,7 +167,12 @@ def solve_query(q,timeout_ms=20000,want_model=True):
   s,r=attempt(2,1500,0)            # without lemma instances the theory is weaker: unsat is still sound
   if r!=z3.unsat:
     short=min(2500,timeout_ms)
+    done=set()
     for core,ms,lvl in ((2,short,1),(6,short,1),(2,short,2),(6,short,2),(2,timeout_ms,2),(6,timeout_ms,2)):
+      if lvl not in insts: insts[lvl]=q.th.instances(lvl,numerals=_numerals(base))
+      sig=(core,ms,len(insts[lvl]))           # a VC without bit-vector idioms has no lemma instances: do not repeat identical attempts
+      if sig in done: continue
+      done.add(sig)
       s,r=attempt(core,ms,lvl)
       if r==z3.unsat or (r==z3.sat and lvl==2): break
   z3.set_param('smt.arith.solver',2)
